@@ -9,6 +9,7 @@ package gitindex_test
 
 import (
 	"bytes"
+	"math/bits"
 	"context"
 	"fmt"
 	"log"
@@ -24,6 +25,7 @@ import (
 	"github.com/go-git/go-git/v5/plumbing"
 	"github.com/go-git/go-git/v5/plumbing/filemode"
 	"github.com/go-git/go-git/v5/plumbing/object"
+	"pgregory.net/rapid"
 
 	"github.com/sourcegraph/zoekt"
 	"github.com/sourcegraph/zoekt/index"
@@ -394,6 +396,32 @@ func vgCaptureLog() (*vgLog, func()) {
 	log.SetOutput(l)
 	return l, func() { log.SetOutput(old) }
 }
+
+// vgU wraps rapid with draws that are (nearly) uniform: rapid's integer
+// generators strongly favour small magnitudes, which skews weighted choices;
+// single bits are unbiased, so the value is assembled from bits. It still
+// shrinks towards 0 / the first list element.
+type vgU struct{ T *rapid.T }
+
+func (u vgU) N(n int, label string) int {
+	if n <= 1 {
+		return 0
+	}
+	k := bits.Len(uint(n-1)) + 4
+	v := 0
+	for i := 0; i < k; i++ {
+		v <<= 1
+		if rapid.Bool().Draw(u.T, label) {
+			v |= 1
+		}
+	}
+	return v % n
+}
+
+func (u vgU) Int(lo, hi int, label string) int { return lo + u.N(hi-lo+1, label) }
+func (u vgU) Bool(pct int, label string) bool  { return u.N(100, label) < pct }
+
+func vgPick[T any](u vgU, xs []T, label string) T { return xs[u.N(len(xs), label)] }
 
 func vgSortedKeys[V any](m map[string]V) []string {
 	out := make([]string, 0, len(m))
